@@ -13,7 +13,7 @@ import torch
 import translate_spec
 from runner import Exploration, Finding
 
-TRANSC = ("exp", "log", "pow", "**")
+TRANSC = ("exp", "log", "pow", "**", "sqrt")
 
 
 def hx(x: float) -> str:
@@ -31,7 +31,7 @@ def dy(rng, lo=-64, hi=64, den=8):
 def gen_value(rng, kind, name, k):
     """returns (wire, python value)"""
     t64 = torch.float64
-    pos_names = ("step_time", "time_constant", "rate_constant", "range", "sharpness", "decay", "dt", "tc", "tc_decay", "tc_rise")
+    pos_names = ("scale", "variance", "step_time", "time_constant", "rate_constant", "range", "sharpness", "decay", "dt", "tc", "tc_decay", "tc_rise")
     if kind == "real":
         if name in pos_names or name.endswith("_constant"):
             v = rng.choice([0.25, 0.5, 1.0, 2.0, 3.5, 10.0, 20.0])
@@ -61,6 +61,9 @@ def gen_value(rng, kind, name, k):
     if kind == "fn":
         a, b = rng.choice([1.0, 0.5, 2.0, -1.0]), dy(rng)
         return f"aff:{hx(a)}:{hx(b)}", (lambda x, a=a, b=b: a * x + b)
+    if kind == "fn2":
+        a, b, c = rng.choice([1.0, 0.5, -1.0]), rng.choice([1.0, 2.0, -0.5]), dy(rng, -4, 4)
+        return f"aff2:{hx(a)}:{hx(b)}:{hx(c)}", (lambda x, y, a=a, b=b, c=c: a * x + b * y + c)
     if kind == "fnb":
         c = dy(rng, -4, 4)
         if rng.random() < 0.5:
@@ -141,11 +144,13 @@ def validate(ctx, mods: list[str], ex: Exploration, per_fn: int = 60) -> None:
                 fdef = next(n for n in ast.parse(src).body if isinstance(n, ast.FunctionDef) and n.name == fn)
                 order = [a.arg for a in fdef.args.posonlyargs + fdef.args.args + fdef.args.kwonlyargs]
                 entries.append((fn, getattr(pymod, fn), order, d["params"], ast.get_source_segment(src, fdef) or ""))
+        senv = {}
         for sn, site in item.get("sites", {}).items():
             # the site expression, compiled from /repo's current source, is the Python original
             import sites as sitemod
             fd, seg = sitemod.build(translate_spec_path(site["file"]).read_text(), sn, site, f"{site['file']}::{sn}")
-            entries.append((sn, sitemod.compile_site(fd), list(site["params"]), site["params"], seg))
+            fnp = tuple(p for p, k in site["params"].items() if k in ("fn", "fn2", "fnb"))
+            entries.append((sn, sitemod.compile_site(fd, senv, fnp), list(site["params"]), site["params"], seg))
         for fn, f, order, params, seg in entries:
             exact = not any(t in seg for t in TRANSC)
             for _ in range(per_fn):
